@@ -87,7 +87,7 @@ def run(tier, replay=None):
                 if rr["notif_mw"]:
                     run_.diverge(tag + " notification-in-chain", "a notification travelled through the middleware chain (%s)" % rr["other"], rp)
                 if sc["chain"]:
-                    for meth in ("ping", "resources/list"):
+                    for meth in ("ping", "resources/list", "verif/custom"):
                         if meth not in (rr["other"] or []):
                             run_.diverge(tag + " request-bypasses-chain method=%s" % meth,
                                          "a %s request was answered without entering the outermost middleware (methods the chain saw: %s)" % (meth, rr["other"]), rp)
